@@ -7,7 +7,7 @@ CONSTANTS
   NewObjs <- MCNewObjs
   MaxDepth = 10
   Starts <- StartsThorough
-  Allowed = {}
+  Allowed = {"content.sharedStream", "resources.nameCollision"}
   Emit = TRUE
   EmitMod = 1
   EmitModV = 1
